@@ -111,6 +111,17 @@ template <class V> struct dyn_closed {
     static_assert(std::is_same<typename dynamic_xy_step_transposed_type<DV>::type, DV>::value, "transpose closed");
 };
 
+// both overloads of subimage_view / subsampled_view are exercised: the (point, point) / (point) forms
+// for views whose width + height is odd, the coordinate forms otherwise
+template <class V> V sub_either(V const& v, long x0, long y0, long sw, long sh) {
+    typedef typename V::point_t P;
+    return ((v.width() + v.height()) & 1) ? subimage_view(v, P(x0, y0), P(sw, sh)) : subimage_view(v, x0, y0, sw, sh);
+}
+template <class V> typename dynamic_xy_step_type<V>::type ss_either(V const& v, long sx, long sy) {
+    typedef typename V::point_t P;
+    return ((v.width() + v.height()) & 1) ? subsampled_view(v, P(sx, sy)) : subsampled_view(v, sx, sy);
+}
+
 // first letter: applied to the concrete (non-step) view type, result converted to DV
 template <class V> typename dyn<V>::type apply_first(V const& v, int op) {
     typedef typename dyn<V>::type DV;
@@ -122,10 +133,10 @@ template <class V> typename dyn<V>::type apply_first(V const& v, int op) {
     case OP_ROT90CW: return DV(to_dyn(rotated90cw_view(v)));
     case OP_ROT90CCW: return DV(to_dyn(rotated90ccw_view(v)));
     case OP_ROT180: return DV(to_dyn(rotated180_view(v)));
-    case OP_SUBIMAGE: sub_params(v.width(), v.height(), x0, y0, sw, sh); return DV(to_dyn(subimage_view(v, x0, y0, sw, sh)));
-    case OP_SS21: return DV(subsampled_view(v, 2, 1));
-    case OP_SS12: return DV(subsampled_view(v, 1, 2));
-    default: return DV(subsampled_view(v, 2, 3));
+    case OP_SUBIMAGE: sub_params(v.width(), v.height(), x0, y0, sw, sh); return DV(to_dyn(sub_either(v, x0, y0, sw, sh)));
+    case OP_SS21: return DV(ss_either(v, 2, 1));
+    case OP_SS12: return DV(ss_either(v, 1, 2));
+    default: return DV(ss_either(v, 2, 3));
     }
 }
 // later letters: DV -> DV
@@ -139,10 +150,10 @@ template <class DV> DV apply_dyn(DV const& v, int op) {
     case OP_ROT90CW: return rotated90cw_view(v);
     case OP_ROT90CCW: return rotated90ccw_view(v);
     case OP_ROT180: return rotated180_view(v);
-    case OP_SUBIMAGE: sub_params(v.width(), v.height(), x0, y0, sw, sh); return subimage_view(v, x0, y0, sw, sh);
-    case OP_SS21: return subsampled_view(v, 2, 1);
-    case OP_SS12: return subsampled_view(v, 1, 2);
-    default: return subsampled_view(v, 2, 3);
+    case OP_SUBIMAGE: sub_params(v.width(), v.height(), x0, y0, sw, sh); return sub_either(v, x0, y0, sw, sh);
+    case OP_SS21: return ss_either(v, 2, 1);
+    case OP_SS12: return ss_either(v, 1, 2);
+    default: return ss_either(v, 2, 3);
     }
 }
 
